@@ -3,6 +3,7 @@ from rules.common import *
 from spec import tables
 
 LEVEL = 'proof'
+FIXTURES = ['F3', 'F1']
 TLVS = 'v2::model::TypeLengthValues<>'
 
 
@@ -56,10 +57,14 @@ def run(ctx, R, parts=('S', 'R', 'B')):
     # C11.R ranking/typestate facts derived from the *extracted* outcomes
     for out in outs:
         st = state_of(out)
-        if st[0] != 'adt':
+        if st == s:
+            o2, b2 = o, b          # state untouched
+        elif st[0] == 'adt':
+            o2 = dict(T.adt_items(st)).get('offset')
+            b2 = dict(T.adt_items(st)).get('bytes')
+        else:
+            R.inst('C11.R', 'state-is-a-cursor-value', False, expected='TypeLengthValues{bytes, offset}', found=st, entry=p, kind='unprovable')
             continue
-        o2 = dict(T.adt_items(st)).get('offset')
-        b2 = dict(T.adt_items(st)).get('bytes')
         R.inst('C11.R', 'section-never-reassigned', b2 == b, expected=b, found=b2, entry=p)
         ret = out['ret']
         is_item = match(ret, SOME(OK(ANY)))
